@@ -482,6 +482,8 @@ class Machine:
             return args[0] if args else Sym("?residual")
         if args and (d.endswith("slice::<impl [T]>::into_vec") or d.endswith("::into_vec") or d.endswith("boxed::box_new") or d.endswith("Box::<T>::new") or d.endswith("box_assume_init_into_vec_unsafe") or d.endswith("write_box_via_move")):
             return args[-1] if d.endswith("write_box_via_move") else args[0]   # vec![..] / Box::new(..): the contents
+        if hir.last(d) == "successors" and "iter" in d and len(args) == 2 and isinstance(args[1], tuple) and args[1] and args[1][0] == "closure":
+            return ("successors", args[0], args[1])      # the chain first, f(first), f(f(first)), ..: walked by the adaptor that consumes it
         done, val = self._inline(d, args, hir.last(d))
         if done:
             return val
@@ -502,6 +504,9 @@ class Machine:
             return val
         if m in TRANSPARENT and not args:
             return recv
+        if isinstance(recv, tuple) and recv and recv[0] == "successors" and m in ("find_map", "find", "any") and len(args) == 1 \
+                and isinstance(args[0], tuple) and args[0] and args[0][0] == "closure":
+            return self._walk_successors(recv, m, args[0])
         if m == "or_else" and isinstance(recv, Sym) and len(args) == 1 and isinstance(args[0], tuple) and args[0] and args[0][0] == "closure" \
                 and "Option<" in str(e.get("ty") or hir.strip(e["recv"]).get("ty") or ""):
             # lazily evaluated alternative of an opaque Option: the closure runs only when the receiver is None
@@ -521,6 +526,31 @@ class Machine:
         self.ex.events.append(("mcall", m, recv, tuple(args)))
         self._run_closure_args(args)
         return Sym("%s.%s(%s)" % (short(recv, 40), m, ", ".join(short(a, 30) for a in args)))
+
+    def _walk_successors(self, chain, m, g):
+        """`successors(first, f).find_map(g)` is the loop `let mut x = first; while let Some(v) = x { if let Some(r) = g(v) { return
+        Some(r) }; x = f(v) }; None` - walked like a loop (as many rounds as loops are unrolled), forking on what is not known"""
+        x = chain[1]
+        for _ in range(max(1, getattr(self.ex, "unroll", 1))):
+            if x == "None" and not isinstance(x, (Sym, Str)):
+                return False if m == "any" else "None"
+            if is_ctor(x) and x[1] == "Some" and len(x) == 3:
+                v = x[2]
+            else:
+                if self.choose(2) == 1:
+                    return False if m == "any" else "None"
+                v = Sym("some of %s" % short(x, 40))
+            r = self._call_closure(g, [v])
+            if m == "find_map":
+                if is_ctor(r) and r[1] == "Some":
+                    return r
+                if not (r == "None" and not isinstance(r, (Sym, Str))) and self.choose(2) == 0:
+                    return r
+            else:
+                if r is True or (r is not False and self.choose(2) == 0):
+                    return True if m == "any" else ctor("Some", v)
+            x = self._call_closure(chain[2], [v])
+        return Sym("?successors")
 
     def ev_let(self, e):
         v = self.ev(e["init"])
